@@ -89,6 +89,14 @@ def check_wellformed(loc, parent_len=None):
         probs.append(f"start/end {loc.start},{loc.end} != span of {bl}")
     if type(loc) is SingleInterval and len(bl) != 1:
         probs.append("single-with-many-blocks")
+    # every block is a view of the same location: same strand, same parent
+    for b in loc.blocks:
+        if b.strand is not loc.strand:
+            probs.append(f"block strand {b.strand} != location strand {loc.strand}")
+            break
+        if (b.parent is None) != (loc.parent is None) or (b.parent is not None and b.parent.id != loc.parent.id):
+            probs.append("block parent != location parent")
+            break
     if loc.parent is not None and loc.parent.sequence is not None:
         if loc.end > len(loc.parent.sequence):
             probs.append("beyond-parent-sequence")
